@@ -128,26 +128,37 @@ structure RS where
   acc : List Nat
 deriving Repr
 
-/-- the loop of doReadAt; `data fid i` = byte i of blob fid.  The code writes into p at
-    `startOffset-offset`, which is `acc.length` as long as the loop runs, so appending is the same. -/
+/-- the gap branch of the loop body (`startOffset < chunk.LogicOffset`): count and zero the gap -/
+def gapStep (v : View) (s : RS) : RS :=
+  if s.pos < v.logic then
+    { pos := v.logic, rem := s.rem - (v.logic - s.pos), acc := s.acc ++ List.replicate (min (v.logic - s.pos) s.rem) 0 }
+  else s
+
+/-- the copy part of the loop body (`continue` when the view has nothing for the window); `data fid i` = byte i of blob fid -/
+def copyStep (data : Nat → Nat → Nat) (v : View) (s : RS) : RS :=
+  let cstart := max v.logic s.pos
+  let cstop := min (v.logic + v.size) (s.pos + s.rem)
+  if cstart ≥ cstop then s else
+  { pos := s.pos + (cstop - cstart), rem := s.rem - (cstop - cstart),
+    acc := s.acc ++ (List.range' (cstart - v.logic + v.off) (cstop - cstart)).map (data v.fid) }
+
+/-- the loop of doReadAt.  The code writes into p at `startOffset-offset`, which is
+    `acc.length` as long as the loop runs, so appending is the same. -/
 def readLoop (data : Nat → Nat → Nat) : List View → RS → RS
   | [], s => s
   | v :: vs, s =>
     if s.rem = 0 then s else
-    let s1 : RS := if s.pos < v.logic then
-        { pos := v.logic, rem := s.rem - (v.logic - s.pos), acc := s.acc ++ List.replicate (min (v.logic - s.pos) s.rem) 0 }
-      else s
-    if s1.rem = 0 then s1 else
-    let cstart := max v.logic s1.pos
-    let cstop := min (v.logic + v.size) (s1.pos + s1.rem)
-    if cstart ≥ cstop then readLoop data vs s1 else
-    let bytes := (List.range' (cstart - v.logic + v.off) (cstop - cstart)).map (data v.fid)
-    readLoop data vs { pos := s1.pos + (cstop - cstart), rem := s1.rem - (cstop - cstart), acc := s1.acc ++ bytes }
+    let s1 := gapStep v s
+    if s1.rem = 0 then s1 else readLoop data vs (copyStep data v s1)
+
+/-- the bytes doReadAt delivers for a window of `len` bytes at `offset`: the loop, then the zeroed tail below the file size -/
+def readAcc (data : Nat → Nat → Nat) (views : List View) (fileSize len offset : Nat) : List Nat :=
+  let s := readLoop data views { pos := offset, rem := len, acc := [] }
+  if 0 < s.rem ∧ s.pos < fileSize then s.acc ++ List.replicate (min s.rem (fileSize - s.pos)) 0 else s.acc
 
 /-- doReadAt: (n, err == io.EOF, the caller's buffer afterwards) -/
 def readAt (data : Nat → Nat → Nat) (views : List View) (fileSize : Nat) (p : List Nat) (offset : Nat) : Nat × Bool × List Nat :=
-  let s := readLoop data views { pos := offset, rem := p.length, acc := [] }
-  let acc := if 0 < s.rem ∧ s.pos < fileSize then s.acc ++ List.replicate (min s.rem (fileSize - s.pos)) 0 else s.acc
+  let acc := readAcc data views fileSize p.length offset
   (acc.length, decide (fileSize ≤ offset + p.length), acc ++ p.drop acc.length)
 
 /-- CompactFileChunks on data chunks: (compacted, garbage) -/
